@@ -96,6 +96,8 @@ fn commit_follows_rule<const W: usize>(np: usize, hr: usize) {
         None => false,
     };
     vcheck!("C28.rowhash.prover.follows_rule", ok);
+    // C01: prover and verifier derive the same leaf for the same row (both follow the one rule)
+    vcheck!("C01.rowhash.prover.same_rule_as_verifier", ok);
 }
 
 /// the same for a matrix over the quadratic extension (the auxiliary-trace and constraint-composition
@@ -128,6 +130,7 @@ fn commit_follows_rule_quad<const W: usize>(np: usize, hr: usize) {
         None => false,
     };
     vcheck!("C28.rowhash.prover.follows_rule.extension_field", ok);
+    vcheck!("C01.rowhash.prover.same_rule_as_verifier.extension_field", ok);
 }
 
 //# harness: fn=RowMatrix::commit_to_rows over QuadExtension (2 extension columns, partitions (1, 1)); label=bounded(2 rows of 2 quadratic-extension columns, partition setting (1, 1); every element, any hash function); tier=quick; uses=commit_follows_rule_quad; timeout=900
